@@ -546,6 +546,19 @@ fn calc_busy_timeout(wal_size: u64, threshold: u64) -> u64 {
     timeout
 }
 
+#[cfg(feature = "verif")]
+fn verif_change_json(change: &ChangeV1) -> serde_json::Value {
+    serde_json::json!({
+        "actor": change.actor_id,
+        "vlo": change.versions().start().0,
+        "vhi": change.versions().end().0,
+        "slo": change.seqs().map(|s| s.start().0 as i64).unwrap_or(-1),
+        "shi": change.seqs().map(|s| s.end().0 as i64).unwrap_or(-1),
+        "last": change.last_seq().map(|s| s.0 as i64).unwrap_or(-1),
+        "cost": change.processing_cost(),
+    })
+}
+
 /// Bundle incoming changes to optimise transaction sizes with SQLite
 ///
 /// *Performance tradeoff*: introduce latency (with a max timeout) to
@@ -606,6 +619,8 @@ pub async fn handle_changes(
 
             debug!(count = %tmp_cost, "spawning processing multiple changes from beginning of loop");
             let changes = std::mem::take(&mut buf);
+            #[cfg(feature = "verif")]
+            klukai_types::verif::emit("ingest_spawn", serde_json::json!({"node": agent.actor_id(), "site": "loop", "changes": changes.iter().map(|(c, _, _)| verif_change_json(c)).collect::<Vec<_>>(), "inflight": join_set.len() + 1}));
             let agent = agent.clone();
             let bookie = bookie.clone();
             join_set.spawn(process_multiple_changes(
@@ -626,6 +641,8 @@ pub async fn handle_changes(
             // but we need to drain it to free up concurrency
             res = join_set.join_next(), if !join_set.is_empty() => {
                 debug!("processed multiple changes concurrently");
+                #[cfg(feature = "verif")]
+                klukai_types::verif::emit("ingest_done", serde_json::json!({"node": agent.actor_id(), "ok": matches!(res, Some(Ok(Ok(())))), "inflight": join_set.len()}));
                 if let Some(Ok(Err(e))) = res {
                     error!("could not process multiple changes: {e}");
                 }
@@ -649,6 +666,8 @@ pub async fn handle_changes(
                     debug!(%buf_cost, "spawning processing multiple changes from max wait interval");
                     assert_sometimes!(true, "Corrosion processes changes");
                     let changes: Vec<_> = queue.drain(..).collect();
+                    #[cfg(feature = "verif")]
+                    klukai_types::verif::emit("ingest_spawn", serde_json::json!({"node": agent.actor_id(), "site": "tick", "changes": changes.iter().map(|(c, _, _)| verif_change_json(c)).collect::<Vec<_>>(), "inflight": join_set.len() + 1}));
                     let agent = agent.clone();
                     let bookie = bookie.clone();
                     join_set.spawn(process_multiple_changes(agent, bookie, changes.clone(), tx_timeout));
@@ -659,6 +678,8 @@ pub async fn handle_changes(
                 if seen.len() > max_seen_cache_len {
                     // we don't want to keep too many entries in here.
                     seen.drain(..seen.len() - keep_seen_cache_size);
+                    #[cfg(feature = "verif")]
+                    klukai_types::verif::emit("ingest_trim", serde_json::json!({"node": agent.actor_id(), "kept": seen.len()}));
                 }
                 continue
             },
@@ -672,6 +693,8 @@ pub async fn handle_changes(
         counter!("corro.agent.changes.recv").increment(std::cmp::max(change_len, 1) as u64); // count empties...
 
         if change.actor_id == agent.actor_id() {
+            #[cfg(feature = "verif")]
+            klukai_types::verif::emit("ingest_recv", serde_json::json!({"node": agent.actor_id(), "change": verif_change_json(&change), "decision": "self"}));
             continue;
         }
 
@@ -680,6 +703,8 @@ pub async fn handle_changes(
             if let Some(seen_seqs) = seen.get(&(change.actor_id, v))
                 && seqs.all(|seq| seen_seqs.contains(&seq))
             {
+                #[cfg(feature = "verif")]
+                klukai_types::verif::emit("ingest_recv", serde_json::json!({"node": agent.actor_id(), "change": verif_change_json(&change), "decision": "seen"}));
                 continue;
             }
         } else {
@@ -688,6 +713,8 @@ pub async fn handle_changes(
                 .versions()
                 .all(|v| seen.contains_key(&(change.actor_id, v)))
             {
+                #[cfg(feature = "verif")]
+                klukai_types::verif::emit("ingest_recv", serde_json::json!({"node": agent.actor_id(), "change": verif_change_json(&change), "decision": "seen"}));
                 continue;
             }
         }
@@ -726,13 +753,21 @@ pub async fn handle_changes(
                 .contains_all(change.versions(), change.seqs())
         {
             trace!("already seen, stop disseminating");
+            #[cfg(feature = "verif")]
+            klukai_types::verif::emit("ingest_recv", serde_json::json!({"node": agent.actor_id(), "change": verif_change_json(&change), "decision": "known"}));
             continue;
         }
 
+        #[cfg(feature = "verif")]
+        let mut verif_dropped = serde_json::Value::Null;
         // drop old items when the queue is full.
         if queue.len() >= max_queue_len {
             let mut dropped_count = 0;
             if let Some((dropped_change, _, _)) = queue.pop_front() {
+                #[cfg(feature = "verif")]
+                {
+                    verif_dropped = verif_change_json(&dropped_change);
+                }
                 for v in dropped_change.versions() {
                     if let Entry::Occupied(mut entry) = seen.entry((change.actor_id, v)) {
                         if let Some(seqs) = dropped_change.seqs().cloned() {
@@ -782,6 +817,8 @@ pub async fn handle_changes(
         }
 
         let cost = change.processing_cost();
+        #[cfg(feature = "verif")]
+        klukai_types::verif::emit("ingest_recv", serde_json::json!({"node": agent.actor_id(), "change": verif_change_json(&change), "decision": "queued", "dropped": verif_dropped, "queue_len": queue.len() + 1}));
         queue.push_back((change, src, Instant::now()));
 
         buf_cost += cost; // tracks the cost, not number of changes
